@@ -8,6 +8,7 @@ import (
 	"strings"
 
 	conf_v1 "github.com/nginx/kubernetes-ingress/pkg/apis/configuration/v1"
+	"github.com/nginx/kubernetes-ingress/pkg/apis/configuration/validation"
 	api_v1 "k8s.io/api/core/v1"
 	discovery_v1 "k8s.io/api/discovery/v1"
 	networking "k8s.io/api/networking/v1"
@@ -136,4 +137,152 @@ func VerifEps(kv map[string]string) string {
 	}
 	sort.Strings(out)
 	return "ok " + strings.Join(out, ",")
+}
+
+// VerifResEps resolves every backend / upstream of ONE resource with the real create*Ex glue and prints, per backend in declared
+// order, the server list it was given.
+// kv: plus, kind=ing|vs|vsr|ts, cip=0|1 (use-cluster-ip, Ingress only),
+//
+//	svcs = s0:<state>&s1:<state>...   state: r<k> (k ready + 1 not-ready endpoint), n (slice, nothing ready), e (no slice),
+//	                                  m (no Service object; a stale slice with a ready endpoint is left behind), x (ExternalName)
+//	be   = [D:]si,sj,...              backends in order ("D:" = the Ingress default backend); for vs/vsr/ts "si+sj" = upstream si with backup sj
+func VerifResEps(kv map[string]string) string {
+	plus := kv["plus"] == "1"
+	svcStore := cache.NewStore(cache.DeletionHandlingMetaNamespaceKeyFunc)
+	sliceStore := cache.NewStore(cache.DeletionHandlingMetaNamespaceKeyFunc)
+	podIdx := cache.NewIndexer(cache.DeletionHandlingMetaNamespaceKeyFunc, cache.Indexers{cache.NamespaceIndex: cache.MetaNamespaceIndexFunc})
+	for _, s := range verifSplit(kv["svcs"], "&") {
+		p := strings.SplitN(s, ":", 2)
+		name, state := p[0], p[1]
+		i, _ := strconv.Atoi(name[1:])
+		if state != "m" {
+			svc := &api_v1.Service{ObjectMeta: metav1.ObjectMeta{Name: name, Namespace: "d"}}
+			svc.Spec.Ports = []api_v1.ServicePort{{Port: 80, TargetPort: intstr.FromInt(8080), Protocol: api_v1.ProtocolTCP}}
+			svc.Spec.ClusterIP = "10.96.0." + strconv.Itoa(i+1)
+			if state == "x" {
+				svc.Spec.Type = api_v1.ServiceTypeExternalName
+				svc.Spec.ExternalName = "ext" + strconv.Itoa(i) + ".example.com"
+				svc.Spec.ClusterIP = ""
+			}
+			_ = svcStore.Add(svc)
+		}
+		if state == "e" || state == "x" {
+			continue
+		}
+		n32 := int32(8080)
+		es := &discovery_v1.EndpointSlice{ObjectMeta: metav1.ObjectMeta{Name: "es-" + name, Namespace: "d", Labels: map[string]string{"kubernetes.io/service-name": name}},
+			Ports: []discovery_v1.EndpointPort{{Port: &n32}}}
+		k := 0
+		if state[0] == 'r' {
+			k, _ = strconv.Atoi(state[1:])
+		}
+		if state == "m" {
+			k = 1
+		}
+		yes, no := true, false
+		for j := 0; j < k; j++ {
+			es.Endpoints = append(es.Endpoints, discovery_v1.Endpoint{Addresses: []string{"10." + strconv.Itoa(i+1) + ".0." + strconv.Itoa(j+1)}, Conditions: discovery_v1.EndpointConditions{Ready: &yes}})
+		}
+		es.Endpoints = append(es.Endpoints, discovery_v1.Endpoint{Addresses: []string{"10." + strconv.Itoa(i+1) + ".9.9"}, Conditions: discovery_v1.EndpointConditions{Ready: &no}})
+		_ = sliceStore.Add(es)
+	}
+	lbc := &LoadBalancerController{Logger: verifLogger, isNginxPlus: plus, ingressClass: "nginx",
+		namespacedInformers: map[string]*namespacedInformer{"": {
+			endpointSliceLister: storeToEndpointSliceLister{sliceStore},
+			podLister:           indexerToPodLister{podIdx},
+			svcLister:           svcStore,
+			policyLister:        cache.NewStore(cache.DeletionHandlingMetaNamespaceKeyFunc),
+		}}}
+	lbc.configuration = NewConfiguration(lbc.HasCorrectIngressClass, plus, false, false, false,
+		validation.NewVirtualServerValidator(validation.IsPlus(plus)), validation.NewGlobalConfigurationValidator(map[int]bool{}),
+		validation.NewTransportServerValidator(true, false, plus), true, false, false, false)
+	var keys []string
+	var got map[string][]string
+	bes := verifSplit(kv["be"], ",")
+	bport := uint16(80)
+	switch kv["kind"] {
+	case "ing":
+		pt := networking.PathTypePrefix
+		ing := &networking.Ingress{ObjectMeta: metav1.ObjectMeta{Namespace: "d", Name: "i", Annotations: map[string]string{}}}
+		if kv["cip"] == "1" {
+			ing.Annotations["nginx.org/use-cluster-ip"] = "true"
+		}
+		rule := networking.IngressRule{Host: "a.ex"}
+		rule.HTTP = &networking.HTTPIngressRuleValue{}
+		for n, b := range bes {
+			backend := networking.IngressBackend{Service: &networking.IngressServiceBackend{Name: strings.TrimPrefix(b, "D:"), Port: networking.ServiceBackendPort{Number: 80}}}
+			keys = append(keys, backend.Service.Name+"80")
+			if strings.HasPrefix(b, "D:") {
+				ing.Spec.DefaultBackend = &backend
+				continue
+			}
+			rule.HTTP.Paths = append(rule.HTTP.Paths, networking.HTTPIngressPath{Path: "/p" + strconv.Itoa(n), PathType: &pt, Backend: backend})
+		}
+		// two rules: the paths are split between two hosts so that the loop over rules is exercised as well
+		if len(rule.HTTP.Paths) > 2 {
+			second := networking.IngressRule{Host: "b.ex"}
+			second.HTTP = &networking.HTTPIngressRuleValue{Paths: rule.HTTP.Paths[2:]}
+			rule.HTTP.Paths = rule.HTTP.Paths[:2]
+			ing.Spec.Rules = []networking.IngressRule{rule, second}
+		} else {
+			ing.Spec.Rules = []networking.IngressRule{rule}
+		}
+		ex := lbc.createIngressEx(ing, map[string]bool{"a.ex": true, "b.ex": true}, nil)
+		got = ex.Endpoints
+	case "vs", "vsr":
+		var ups []conf_v1.Upstream
+		for n, b := range bes {
+			p := strings.SplitN(b, "+", 2)
+			u := conf_v1.Upstream{Name: "u" + strconv.Itoa(n), Service: p[0], Port: 80}
+			keys = append(keys, "d/"+p[0]+":80")
+			if len(p) == 2 {
+				u.Backup = p[1]
+				u.BackupPort = &bport
+				keys = append(keys, "d/"+p[1]+":80")
+			}
+			ups = append(ups, u)
+		}
+		vs := &conf_v1.VirtualServer{ObjectMeta: metav1.ObjectMeta{Namespace: "d", Name: "v"}}
+		vs.Spec.Host = "a.ex"
+		var vsrs []*conf_v1.VirtualServerRoute
+		if kv["kind"] == "vs" {
+			vs.Spec.Upstreams = ups
+		} else {
+			vsr := &conf_v1.VirtualServerRoute{ObjectMeta: metav1.ObjectMeta{Namespace: "d", Name: "r"}}
+			vsr.Spec.Host = "a.ex"
+			vsr.Spec.Upstreams = ups
+			vsrs = append(vsrs, vsr)
+		}
+		ex := lbc.createVirtualServerEx(vs, vsrs)
+		got = ex.Endpoints
+	case "ts":
+		ts := &conf_v1.TransportServer{ObjectMeta: metav1.ObjectMeta{Namespace: "d", Name: "t"}}
+		for n, b := range bes {
+			p := strings.SplitN(b, "+", 2)
+			u := conf_v1.TransportServerUpstream{Name: "u" + strconv.Itoa(n), Service: p[0], Port: 80}
+			keys = append(keys, "d/"+p[0]+":80")
+			if len(p) == 2 {
+				u.Backup = p[1]
+				u.BackupPort = &bport
+				keys = append(keys, "d/"+p[1]+":80")
+			}
+			ts.Spec.Upstreams = append(ts.Spec.Upstreams, u)
+		}
+		ex := lbc.createTransportServerEx(ts, 5000, "", "")
+		got = ex.Endpoints
+	default:
+		return "bad-kind"
+	}
+	var out []string
+	for n, k := range keys {
+		v, ok := got[k]
+		if !ok {
+			out = append(out, "b"+strconv.Itoa(n)+"=ABSENT")
+			continue
+		}
+		v = append([]string(nil), v...)
+		sort.Strings(v)
+		out = append(out, "b"+strconv.Itoa(n)+"="+strings.Join(v, ","))
+	}
+	return strings.Join(out, ";")
 }
